@@ -441,38 +441,120 @@ Proof.
   unfold dict_max_size, u32 in E. lia.
 Qed.
 
-Definition dict_bytes (xs : list N) : list N :=
-  let u := dict_values_of xs in
+(* ---- encoding with a given well-formed dictionary (shared dictionaries) ---- *)
+Definition dict_of (u : list N) : dict :=
+  mk_dict u (N.of_nat (length u)) (dict_index_width (N.of_nat (length u))).
+
+Definition dict_bytes_with (u xs : list N) : list N :=
   header_bytes u (N.of_nat (length xs))
   ++ index_bytes u (dict_index_width (N.of_nat (length u))) xs.
 
-(* varintDictEncode writes exactly: [size][entries, ascending, distinct]
-   [count][one little-endian index of fixed width per value] *)
-Theorem dict_encode_is_spec xs d : dict_build xs = BuildOk d ->
-  dict_encode xs = (dict_bytes xs, true).
-Proof.
-  intro H. unfold dict_encode. rewrite H. destruct (dict_build_ok xs d H) as (Hne & -> & Hlen).
-  destruct (dict_values_of_spec xs) as (Hs & Hin).
-  unfold dict_encode_with_dict. destruct xs as [|x t]; [congruence|].
-  cbn [d_size d_values d_index_width]. unfold dict_max_size.
-  replace (1048576 <? N.of_nat (length (dict_values_of (x :: t)))) with false by lia.
-  rewrite dict_encode_indices_ok by (try assumption; intros; apply Hin; assumption).
-  cbn [fst snd]. unfold dict_bytes, header_bytes, entry_bytes. rewrite <- !app_assoc. reflexivity.
-Qed.
+Definition dict_bytes (xs : list N) : list N := dict_bytes_with (dict_values_of xs) xs.
 
-Lemma dict_bytes_len xs :
-  N.of_nat (length (dict_bytes xs))
-  = N.of_nat (length (header_bytes (dict_values_of xs) (N.of_nat (length xs))))
-    + N.of_nat (length xs) * N.of_nat (dict_index_width (N.of_nat (length (dict_values_of xs)))).
-Proof. unfold dict_bytes. rewrite app_length, index_bytes_len. lia. Qed.
+Lemma dict_build_is_dict_of xs d : dict_build xs = BuildOk d -> d = dict_of (dict_values_of xs).
+Proof. intro H. apply dict_build_ok in H. tauto. Qed.
 
-(* ---------------------------------------------------------------- round trips *)
 Lemma dict_values_u64 xs : all_u64 xs -> all_u64 (dict_values_of xs).
 Proof.
   intro H. unfold all_u64 in *. rewrite Forall_forall in *. intros x Hx.
   apply H. apply dict_values_of_spec. exact Hx.
 Qed.
 
+Section WithDict.
+  Variable u xs : list N.
+  Hypothesis Hs : sdist u.
+  Hypothesis Hlen : 1 <= N.of_nat (length u) <= 1048576.
+  Hypothesis Hu : all_u64 u.
+  Hypothesis Hne : xs <> [].
+  Hypothesis Hin : forall v, In v xs -> In v u.
+  Hypothesis Hcnt : u64_ok (N.of_nat (length xs)).
+
+  Let w := dict_index_width (N.of_nat (length u)).
+  Let count := N.of_nat (length xs).
+  Let n := N.of_nat (length (dict_bytes_with u xs)).
+
+  (* varintDictEncodeWithDict writes exactly: [size][entries][count][one
+     little-endian index of fixed width per value] *)
+  Theorem dict_encode_with_dict_is_spec :
+    dict_encode_with_dict (dict_of u) xs = (dict_bytes_with u xs, true).
+  Proof.
+    unfold dict_encode_with_dict, dict_of. destruct xs as [|x t]; [congruence|].
+    cbn [d_size d_values d_index_width]. unfold dict_max_size.
+    replace (1048576 <? N.of_nat (length u)) with false by lia.
+    rewrite dict_encode_indices_ok by assumption.
+    cbn [fst snd]. unfold dict_bytes_with, header_bytes, entry_bytes. rewrite <- !app_assoc. reflexivity.
+  Qed.
+
+  Lemma rt_facts :
+    (1 <= w <= 8)%nat /\ N.of_nat (length u) <= 256 ^ N.of_nat w /\
+    n = N.of_nat (length (header_bytes u count)) + count * N.of_nat w /\ 1 <= count.
+  Proof.
+    destruct (dict_index_width_bounds (N.of_nat (length u))) as (A & B); [lia|]. fold w in A, B.
+    split; [exact A|]. split; [lia|]. split.
+    - subst n count w. unfold dict_bytes_with. rewrite app_length, index_bytes_len. lia.
+    - subst count. destruct xs; [congruence|]. cbn [length]. lia.
+  Qed.
+
+  Lemma rt_header tl :
+    dict_read_header (dict_bytes_with u xs ++ tl) n
+    = HOk u (N.of_nat (length u)) count (count * N.of_nat w) [8 * N.of_nat (length u)].
+  Proof.
+    destruct rt_facts as (Hw & Hlt & Hn & Hc).
+    unfold dict_bytes_with. fold w count. rewrite <- app_assoc.
+    rewrite dict_read_header_ok; try exact Hu; try exact Hcnt; try lia.
+    f_equal. lia.
+  Qed.
+
+  Lemma rt_skip tl :
+    skipn (N.to_nat (n - count * N.of_nat w)) (dict_bytes_with u xs ++ tl) = index_bytes u w xs ++ tl.
+  Proof.
+    destruct rt_facts as (Hw & Hlt & Hn & Hc).
+    unfold dict_bytes_with. fold w count. rewrite <- app_assoc. apply skipn_app_len'. lia.
+  Qed.
+
+  Lemma rt_indices tl fuel : (length xs < fuel)%nat ->
+    dict_decode_indices fuel (arr_of_list u) (N.of_nat (length u)) w (index_bytes u w xs ++ tl) 0 count
+    = Some (xs, true).
+  Proof.
+    destruct rt_facts as (Hw & Hlt & Hn & Hc). intro Hf.
+    apply dict_decode_indices_ok; try assumption; try lia.
+  Qed.
+
+  Theorem dict_with_decode_roundtrip tl :
+    dict_decode (dict_bytes_with u xs ++ tl) n = DOk xs [8 * N.of_nat (length u); mul64 count 8].
+  Proof.
+    destruct rt_facts as (Hw & Hlt & Hn & Hc).
+    unfold dict_decode. rewrite rt_header. fold w.
+    replace (count * N.of_nat w / N.of_nat w) with count by (rewrite N.div_mul; lia).
+    rewrite N.ltb_irrefl. rewrite rt_skip. rewrite rt_indices by nia. reflexivity.
+  Qed.
+
+  Theorem dict_with_decode_into_roundtrip tl cap :
+    dict_decode_into (dict_bytes_with u xs ++ tl) n cap
+    = if cap <? count then (if cap =? 0 then DNull [] else DNull [8 * N.of_nat (length u)])
+      else DOk xs [8 * N.of_nat (length u)].
+  Proof.
+    destruct rt_facts as (Hw & Hlt & Hn & Hc).
+    unfold dict_decode_into. destruct (cap =? 0) eqn:E0.
+    { replace (cap <? count) with true by lia. reflexivity. }
+    rewrite rt_header. destruct (cap <? count) eqn:E1; [reflexivity|]. fold w.
+    replace (count * N.of_nat w / N.of_nat w) with count by (rewrite N.div_mul; lia).
+    rewrite N.ltb_irrefl. rewrite rt_skip. rewrite rt_indices by nia. reflexivity.
+  Qed.
+
+  Theorem dict_with_size_exact : 8 * N.of_nat (length xs) < 18446744073709551616 ->
+    dict_encoded_size_with_dict (dict_of u) count = n.
+  Proof.
+    intro Hmem. fold count in Hmem. destruct rt_facts as (Hw & Hlt & Hn & Hc).
+    unfold dict_encoded_size_with_dict, dict_of.
+    cbn [d_size d_values d_index_width]. fold w.
+    replace (count =? 0) with false by lia.
+    rewrite entry_bytes_fold. rewrite Hn, header_bytes_len.
+    unfold mul64. unfold u64_ok in Hcnt. fold count in Hcnt. rewrite N.mod_small by nia. lia.
+  Qed.
+End WithDict.
+
+(* ---------------------------------------------------------------- round trips *)
 Section RoundTrip.
   Variable xs : list N.
   Variable d : dict.
@@ -481,74 +563,44 @@ Section RoundTrip.
   Hypothesis Hcnt : u64_ok (N.of_nat (length xs)).
 
   Let u := dict_values_of xs.
-  Let w := dict_index_width (N.of_nat (length u)).
-  Let count := N.of_nat (length xs).
-  Let n := N.of_nat (length (dict_bytes xs)).
 
-  Lemma rt_facts :
-    1 <= N.of_nat (length u) <= 1048576 /\ (1 <= w <= 8)%nat /\
-    N.of_nat (length u) <= 256 ^ N.of_nat w /\
-    n = N.of_nat (length (header_bytes u count)) + count * N.of_nat w /\ 1 <= count.
+  Lemma build_facts : sdist u /\ 1 <= N.of_nat (length u) <= 1048576 /\ all_u64 u /\ xs <> [] /\
+                      (forall v, In v xs -> In v u) /\ d = dict_of u.
   Proof.
-    destruct (dict_build_ok xs d Hb) as (Hne & _ & Hlen). fold u in Hlen.
-    destruct (dict_index_width_bounds (N.of_nat (length u))) as (A & B); [lia|]. fold w in A, B.
-    split; [exact Hlen|]. split; [exact A|]. split; [lia|]. split.
-    - subst n count w u. apply dict_bytes_len.
-    - subst count. destruct xs; [congruence|]. cbn [length]. lia.
+    destruct (dict_build_ok xs d Hb) as (Hne & Hd & Hlen).
+    destruct (dict_values_of_spec xs) as (Hs & Hin).
+    repeat split; try assumption; try (apply Hlen).
+    - apply dict_values_u64. exact Hxs.
+    - intros v Hv. apply Hin. exact Hv.
   Qed.
 
-  Lemma rt_header tl :
-    dict_read_header (dict_bytes xs ++ tl) n
-    = HOk u (N.of_nat (length u)) count (count * N.of_nat w) [8 * N.of_nat (length u)].
+  (* varintDictEncode writes exactly: [size][entries, ascending, distinct]
+     [count][one little-endian index of fixed width per value] *)
+  Theorem dict_encode_is_spec : dict_encode xs = (dict_bytes xs, true).
   Proof.
-    destruct rt_facts as (Hlen & Hw & Hlt & Hn & Hc).
-    unfold dict_bytes. fold u w count. rewrite <- app_assoc.
-    rewrite dict_read_header_ok; try (apply dict_values_u64; exact Hxs); try exact Hcnt; try lia.
-    f_equal. lia.
-  Qed.
-
-  Lemma rt_skip tl :
-    skipn (N.to_nat (n - count * N.of_nat w)) (dict_bytes xs ++ tl) = index_bytes u w xs ++ tl.
-  Proof.
-    destruct rt_facts as (Hlen & Hw & Hlt & Hn & Hc).
-    unfold dict_bytes. fold u w count. rewrite <- app_assoc. apply skipn_app_len'. lia.
-  Qed.
-
-  Lemma rt_indices tl fuel : (length xs < fuel)%nat ->
-    dict_decode_indices fuel (arr_of_list u) (N.of_nat (length u)) w (index_bytes u w xs ++ tl) 0 count
-    = Some (xs, true).
-  Proof.
-    destruct rt_facts as (Hlen & Hw & Hlt & Hn & Hc). intro Hf.
-    apply dict_decode_indices_ok; try assumption; try lia.
-    intros v Hv. apply dict_values_of_spec. exact Hv.
+    destruct build_facts as (Hs & Hlen & Hu & Hne & Hin & Hd).
+    unfold dict_encode. rewrite Hb, Hd. apply dict_encode_with_dict_is_spec; assumption.
   Qed.
 
   (* varintDictDecode(buffer, n) of the encoder's n bytes (whatever follows
      them in memory) returns the original array *)
   Theorem dict_decode_roundtrip tl :
     dict_decode (fst (dict_encode xs) ++ tl) (N.of_nat (length (fst (dict_encode xs))))
-    = DOk xs [8 * N.of_nat (length u); mul64 count 8].
+    = DOk xs [8 * N.of_nat (length u); mul64 (N.of_nat (length xs)) 8].
   Proof.
-    rewrite (dict_encode_is_spec xs d Hb). cbn [fst]. fold n.
-    destruct rt_facts as (Hlen & Hw & Hlt & Hn & Hc).
-    unfold dict_decode. rewrite rt_header. fold w.
-    replace (count * N.of_nat w / N.of_nat w) with count by (rewrite N.div_mul; lia).
-    rewrite N.ltb_irrefl. rewrite rt_skip. rewrite rt_indices by nia. reflexivity.
+    destruct build_facts as (Hs & Hlen & Hu & Hne & Hin & Hd).
+    rewrite dict_encode_is_spec. cbn [fst]. apply dict_with_decode_roundtrip; assumption.
   Qed.
 
   (* varintDictDecodeInto: all-or-nothing in the capacity *)
   Theorem dict_decode_into_roundtrip tl cap :
     dict_decode_into (fst (dict_encode xs) ++ tl) (N.of_nat (length (fst (dict_encode xs)))) cap
-    = if cap <? count then (if cap =? 0 then DNull [] else DNull [8 * N.of_nat (length u)])
+    = if cap <? N.of_nat (length xs)
+      then (if cap =? 0 then DNull [] else DNull [8 * N.of_nat (length u)])
       else DOk xs [8 * N.of_nat (length u)].
   Proof.
-    rewrite (dict_encode_is_spec xs d Hb). cbn [fst]. fold n.
-    destruct rt_facts as (Hlen & Hw & Hlt & Hn & Hc).
-    unfold dict_decode_into. destruct (cap =? 0) eqn:E0.
-    { replace (cap <? count) with true by lia. reflexivity. }
-    rewrite rt_header. destruct (cap <? count) eqn:E1; [reflexivity|]. fold w.
-    replace (count * N.of_nat w / N.of_nat w) with count by (rewrite N.div_mul; lia).
-    rewrite N.ltb_irrefl. rewrite rt_skip. rewrite rt_indices by nia. reflexivity.
+    destruct build_facts as (Hs & Hlen & Hu & Hne & Hin & Hd).
+    rewrite dict_encode_is_spec. cbn [fst]. apply dict_with_decode_into_roundtrip; assumption.
   Qed.
 
   (* varintDictEncodedSize is exact (the array of 8-byte values exists in
@@ -557,16 +609,41 @@ Section RoundTrip.
     dict_encoded_size xs = N.of_nat (length (fst (dict_encode xs))) /\
     dict_ret (dict_encode xs) = dict_encoded_size xs.
   Proof.
-    intro Hmem. fold count in Hmem.
-    rewrite (dict_encode_is_spec xs d Hb). cbn [fst]. fold n.
-    destruct rt_facts as (Hlen & Hw & Hlt & Hn & Hc).
-    destruct (dict_build_ok xs d Hb) as (_ & Hd & _).
-    assert (E : dict_encoded_size xs = n).
-    { unfold dict_encoded_size. rewrite Hb, Hd. unfold dict_encoded_size_with_dict.
-      cbn [d_size d_values d_index_width]. fold u w count.
-      replace (count =? 0) with false by lia.
-      rewrite entry_bytes_fold. rewrite Hn, header_bytes_len.
-      unfold mul64. unfold u64_ok in Hcnt. fold count in Hcnt. rewrite N.mod_small by nia. lia. }
-    split; [exact E|]. unfold dict_ret. cbn [fst snd]. fold n. lia.
+    intro Hmem. destruct build_facts as (Hs & Hlen & Hu & Hne & Hin & Hd).
+    assert (E : dict_encoded_size xs = N.of_nat (length (dict_bytes xs))).
+    { unfold dict_encoded_size. rewrite Hb, Hd. apply dict_with_size_exact; assumption. }
+    rewrite dict_encode_is_spec. cbn [fst]. split; [exact E|].
+    unfold dict_ret. cbn [fst snd]. lia.
   Qed.
 End RoundTrip.
+
+(* a value missing from the dictionary: "return 0" after writing a prefix that
+   stays inside the predicted size, for ANY dictionary structure *)
+Theorem dict_with_bound d xs : N.of_nat (length xs) * 8 < 18446744073709551616 ->
+  (d_index_width d <= 8)%nat ->
+  N.of_nat (length (fst (dict_encode_with_dict d xs)))
+  <= dict_encoded_size_with_dict d (N.of_nat (length xs)) /\
+  dict_ret (dict_encode_with_dict d xs) <= dict_encoded_size_with_dict d (N.of_nat (length xs)).
+Proof.
+  intros Hmem Hw.
+  assert (A : N.of_nat (length (fst (dict_encode_with_dict d xs)))
+              <= dict_encoded_size_with_dict d (N.of_nat (length xs))).
+  { unfold dict_encode_with_dict, dict_encoded_size_with_dict. destruct xs as [|x t]; [cbn; lia|].
+    replace (N.of_nat (length (x :: t)) =? 0) with false by (cbn [length]; lia).
+    destruct (dict_max_size <? d_size d); [cbn [fst length]; lia|].
+    cbn [fst]. rewrite !app_length, !tagged_put_len_nat, entry_bytes_fold.
+    fold (entry_bytes (d_values d)).
+    pose proof (dict_encode_indices_len (arr_of_list (d_values d)) (d_size d) (d_index_width d) (x :: t)).
+    unfold mul64. rewrite N.mod_small by nia. nia. }
+  split; [exact A|]. unfold dict_ret. destruct (snd (dict_encode_with_dict d xs)); lia.
+Qed.
+
+Theorem dict_decode_into_full xs d :
+  dict_build xs = BuildOk d -> all_u64 xs -> u64_ok (N.of_nat (length xs)) ->
+  forall tl cap, N.of_nat (length xs) <= cap ->
+  dict_decode_into (fst (dict_encode xs) ++ tl) (N.of_nat (length (fst (dict_encode xs)))) cap
+  = DOk xs [8 * N.of_nat (length (dict_values_of xs))].
+Proof.
+  intros Hb Hx Hc tl cap Hcap. rewrite (dict_decode_into_roundtrip xs d Hb Hx Hc).
+  replace (cap <? N.of_nat (length xs)) with false by lia. reflexivity.
+Qed.
